@@ -88,28 +88,32 @@ def handleFmatch (args : List String) : Verdict :=
     let bonds ← many (do let a ← nat; let b ← nat; pure (a, b)) nb
     let na ← nat
     let angles ← many (do let a ← nat; let b ← nat; let c ← nat; pure (a, b, c)) na
+    let nd ← nat
+    let dihs ← many (do let a ← nat; let b ← nat; let c ← nat; let d ← nat; pure (a, b, c, d)) nd
     let ni ← nat
     let inters ← many (do
       let bd ← nat; let t1 ← nat; let t2 ← nat
       let mn ← rat; let mx ← rat; let st ← rat
       let k ← nat
       let star ← many rat k
-      pure ({ bonded := bd ≥ 1, t1 := t1, t2 := t2, mn := mn, mx := mx, step := st, star := star, angle := bd == 2 } : C06F.Inter)) ni
+      pure ({ bonded := bd ≥ 1, t1 := t1, t2 := t2, mn := mn, mx := mx, step := st, star := star, angle := bd == 2, dihedral := bd == 3 } : C06F.Inter)) ni
     let frT ← many (do
       let beads ← many (do
         let x ← rat; let y ← rat; let z ← rat; let fx ← rat; let fy ← rat; let fz ← rat
         pure ((⟨x, y, z⟩ : V3), (⟨fx, fy, fz⟩ : V3))) n
       let th ← many rat na
-      pure (beads, th)) frames
+      let ph ← many rat nd
+      pure (beads, th, ph)) frames
     let fr := frT.map (·.1)
-    let thetasOf : Nat → List Rat := fun fi => (frT[fi]?.map (·.2)).getD []
+    let thetasOf : Nat → List Rat := fun fi => (frT[fi]?.map (·.2.1)).getD []
+    let phisOf : Nat → List Rat := fun fi => (frT[fi]?.map (·.2.2)).getD []
     let outTok ← tok
     if outTok != "OUT" then failure else
     let status ← tok
     let nt ← nat
     let tabs ← many (do let k ← nat; let rows ← nat; let vals ← many rat (2 * rows); pure (k, vals)) nt
-    let sys : C06F.Sys := { L := L, types := tm.map (·.1), mols := tm.map (·.2), bonds := bonds, inters := inters, angles := angles }
-    let tag := s!"fmatch-{if cls == 1 then "constrained" else "plain"}-{if frames / fpb > 1 then "blocks" else "oneblock"}{if nb > 0 then "-bonded" else ""}{if na > 0 then "-angles" else ""}"
+    let sys : C06F.Sys := { L := L, types := tm.map (·.1), mols := tm.map (·.2), bonds := bonds, inters := inters, angles := angles, dihedrals := dihs }
+    let tag := s!"fmatch-{if cls == 1 then "constrained" else "plain"}-{if frames / fpb > 1 then "blocks" else "oneblock"}{if nb > 0 then "-bonded" else ""}{if na > 0 then "-angles" else ""}{if nd > 0 then "-dihedrals" else ""}"
     -- only whole blocks are processed
     let nblocks := frames / fpb
     let used := fr.take (nblocks * fpb)
@@ -117,7 +121,7 @@ def handleFmatch (args : List String) : Verdict :=
     let blocks := (List.range nblocks).map fun b => ((used.zipIdx.drop (b * fpb)).take fpb)
     let wellSampled := blocks.all fun blk => inters.all fun it =>
       let xs := C06F.gridOf it
-      let rs := blk.flatMap fun (f, fi) => if it.angle then thetasOf fi else (C06F.samples sys it (f.map (·.1))).map fun q => q.2.2.2
+      let rs := blk.flatMap fun (f, fi) => if it.dihedral then phisOf fi else if it.angle then thetasOf fi else (C06F.samples sys it (f.map (·.1))).map fun q => q.2.2.2
       (C06F.coverage xs rs).all fun c => c ≥ 3
     -- the angle witnesses must be the angles of the geometry: cos θ (30-term Taylor polynomial) against u·w/(|u||w|), and inside the grid
     let cosT (t : Rat) : Rat := ((List.range 30).foldl (fun (acc : Rat × Rat) (k : Nat) => (acc.1 + acc.2, -(acc.2 * t * t / (((2 * k + 1) * (2 * k + 2) : Nat) : Rat)))) (0, 1)).1
@@ -125,9 +129,16 @@ def handleFmatch (args : List String) : Verdict :=
       let gs := C06F.angleGeoms sys (f.map (·.1))
       let th := thetasOf fi
       gs.length == th.length && (gs.zip th).all fun (g, t) => absRat (cosT t - g.c) ≤ 1 / 10 ^ 10 && 0 < t && t < 4
+    -- dihedral witnesses: cosine against n1·n2/(|n1||n2|), sign against v1·(v2×v3)
+    let dihOk := used.zipIdx.all fun (f, fi) =>
+      let gs := C06F.dihGeoms sys (f.map (·.1))
+      let ph := phisOf fi
+      gs.length == ph.length && (gs.zip ph).all fun (g, t) => absRat (cosT t - g.c) ≤ 1 / 10 ^ 10 && absRat t < 4 && (t == 0 || (t < 0) == (g.sign < 0))
+    let witnessOk := witnessOk && dihOk
     if !witnessOk then pure { agree := false, msg := "angle witnesses of the harness do not match the geometry", tag := "fmatch-bad-witness" } else
     -- sin θ close to zero: the gradient of the angle is singular (stretched or folded triples are not judged)
-    let singular := used.any fun f => (C06F.angleGeoms sys (f.map (·.1))).any fun g => g.sn < 1 / 20
+    let singular := used.any fun f => ((C06F.angleGeoms sys (f.map (·.1))).any fun g => g.sn < 1 / 20) ||
+      ((C06F.dihGeoms sys (f.map (·.1))).any fun g => g.sn < 1 / 20 || g.m1 < 1 / 1000 || g.m2 < 1 / 1000 || absRat g.triple < 1 / 10 ^ 6)
     if singular then pure { tag := "fmatch-skip-singular-angle" } else
     if !wellSampled then pure { tag := "fmatch-skip-under-sampled" } else
     if status != "ok" then pure { agree := false, msg := "csg_fmatch failed: " ++ status, tag := "fmatch-error" } else
@@ -144,7 +155,7 @@ def handleFmatch (args : List String) : Verdict :=
     | some tabsM =>
       let fmax := used.foldl (fun m f => f.foldl (fun m2 q => let a := absRat q.2.x + absRat q.2.y + absRat q.2.z; if m2 < a then a else m2) m) 1
       let bad := used.zipIdx.findSome? fun (f, fi) =>
-        let pred := C06F.predict sys tabsM (f.map (·.1)) (thetasOf fi)
+        let pred := C06F.predict sys tabsM (f.map (·.1)) (thetasOf fi) (phisOf fi)
         ((pred.zip (f.map (·.2))).zipIdx.find? fun ((a, b), _) =>
           !(absRat (a.x - b.x) + absRat (a.y - b.y) + absRat (a.z - b.z) ≤ fmax / 10 ^ 5)).map fun ((a, b), bi) =>
             s!"frame {fi} bead {bi}: force from the written tables ({showR a.x},{showR a.y},{showR a.z}) reference ({showR b.x},{showR b.y},{showR b.z})"
